@@ -69,7 +69,13 @@ class Built:
 
     def sym(self, n):
         if n not in self.symtab:
-            self.symtab[n] = sympy.Symbol(n)
+            kind = self.defn.get("symbol_assumptions")
+            if kind == "real":
+                self.symtab[n] = sympy.Symbol(n, real=True)
+            elif kind == "real_finite":
+                self.symtab[n] = sympy.Symbol(n, real=True, finite=True)
+            else:
+                self.symtab[n] = sympy.Symbol(n)
         return self.symtab[n]
 
     # convenience ---------------------------------------------------------
